@@ -18,14 +18,14 @@ func init() {
 	register(&Check{
 		ID: "C03", Level: "exploration", Primary: "cases", EvalCount: "requests_routed",
 		Rule: "route tables = every sequence of up to k routes (k=2 quick, 3 thorough) over a 15-spec alphabet (bind; search with base in {unset,dc=a} x filter in {unset,(cn=x)} x scope in {unset,2}; " +
-			"extended A/B/StartTLS-name; modify; add; delete) x {no default, default, default registered twice} x {no unbind route, unbind registered twice}, plus random tables up to length 8 with case variants and scope 1; " +
+			"extended A/B/StartTLS-name; modify; add; delete) x {no default, default, default registered twice} x {no unbind route, unbind registered twice}, plus random tables up to length 8 - every tenth one of 13..40 routes - with case variants and scope 1; " +
 			"each table is served on a fresh connection the full 40-request alphabet (bind; search over 3 bases x 3 filters x 3 scopes; six spellings - compact, with blanks next to the comma or at the ends, around an escaped comma - of two-RDN base DNs, which the random tables also use as route bases; extended A/B/C; modify; add; delete) plus Unbind, all pipelined; every seventh table by a server of its own whose empty mux was attached (Server.Router) before the routes were registered, every fifth table is served over a TLS listener, every fifth on a server created WithDisablePanicRecovery, and every other table spells a zero scope out as WithScope(BaseObject); in every fifth table the route handlers (except those of StartTLS-named routes, which run on the read loop) panic right after they have answered. " +
 			"Oracle: 15-line reference model (first matching route, else last-registered default, else built-in refusal). distinct_nontrivial = distinct (route-table signature, request, outcome) triples observed",
 		Assume: []string{"re-registering the default or unbind route replaces the earlier registration (last registration wins)"},
 		Phases: func(tier string, seed int64) []Phase {
 			return []Phase{{Name: "tables", Run: c03Tables}, {Name: "goldap-noroute", Run: c03GoLDAP}}
 		},
-		MinObserved: []string{"requests_routed", "outcome/builtin", "outcome/default", "outcome/first_of_several", "outcome/shadowed_later_route", "tables_over_tls", "tables_whose_route_handlers_panic_after_replying", "requests_carrying_controls", "tables_on_a_server_without_panic_recovery", "search_routes_registered_with_an_explicit_zero_scope", "search_routes_with_a_base_dn_of_several_rdns", "tables_whose_routes_were_registered_after_the_mux_was_attached"},
+		MinObserved: []string{"requests_routed", "outcome/builtin", "outcome/default", "outcome/first_of_several", "outcome/shadowed_later_route", "tables_over_tls", "tables_whose_route_handlers_panic_after_replying", "requests_carrying_controls", "tables_on_a_server_without_panic_recovery", "search_routes_registered_with_an_explicit_zero_scope", "search_routes_with_a_base_dn_of_several_rdns", "tables_whose_routes_were_registered_after_the_mux_was_attached", "tables_with_more_than_twelve_routes"},
 	})
 }
 
@@ -507,8 +507,16 @@ func c03Tables(c *Ctx) {
 	r := c.Rng
 	for i := 0; i < c.N(300, 5000); i++ {
 		var t c03Table
-		for j, n := 0, 1+r.Intn(8); j < n; j++ {
+		nroutes := 1 + r.Intn(8)
+		if i%10 == 7 {
+			nroutes = 13 + r.Intn(28) // a long table now and then (13..40 routes; most of them search routes, see below)
+			c.Count("tables_with_more_than_twelve_routes", 1)
+		}
+		for j, n := 0, nroutes; j < n; j++ {
 			sp := pick(r, alpha)
+			if nroutes > 12 && j < n-3 && r.Chance(70) {
+				sp = rspec{Kind: "search"}
+			}
 			if sp.Kind == "search" {
 				sp.Base = pick(r, append([]string{"", "dc=a", "DC=A", "dc=b", "Dc=a"}, c03SpacedBases...))
 				if strings.Contains(sp.Base, ",") {
